@@ -95,7 +95,9 @@ pub fn render(c: &Circuit, r: &mut Prng) -> String {
             s.push_str("</elementAttributes>");
         } else {
             let p = &c.pins[i];
-            s.push_str(&format!("<elementName>{}</elementName>", p.kind));
+            if !p.kind.is_empty() {
+                s.push_str(&format!("<elementName>{}</elementName>", p.kind));
+            }
             s.push_str(nl(r));
             s.push_str("<elementAttributes>");
             let mut entries: Vec<String> = vec![];
@@ -291,7 +293,8 @@ pub fn gen_circuit(r: &mut Prng) -> Circuit {
     r.shuffle(&mut names);
     let mut pins = vec![];
     for name in names.iter().take(n) {
-        let kind = *r.pick(&["In", "In", "Clock", "Out", "Out", "And"]);
+        // "" = an element without an `elementName` of its own: it is no pin, whatever its attributes say
+        let kind = *r.pick(&["In", "In", "In", "Clock", "Out", "Out", "Out", "And", "Probe", ""]);
         let label = match r.below(12) {
             0 => None,
             1 => Some(String::new()),
